@@ -5,6 +5,7 @@ import (
 	"flag"
 	"fmt"
 	"os"
+	"os/exec"
 	"runtime"
 	"sort"
 	"strings"
@@ -325,6 +326,11 @@ func runProbe(prop string, seed uint64, n int, outPath string, maxViol int) int 
 			res.Samples = append(res.Samples, c)
 		}
 		msgs, hung := guarded(func() []string { return sp.oracle(c, rngFor(c)) })
+		if hung && confirmHang(c) {
+			hung = false // the machine was busy: the same call returns in a fresh process; not a hang
+			res.Dist["watchdog-not-confirmed"]++
+			continue
+		}
 		if hung {
 			// the goroutine cannot be stopped: record the case and end the process
 			res.Violations = append(res.Violations, Violation{Property: prop, Case: c, Messages: msgs})
@@ -394,6 +400,33 @@ func guarded(f func() []string) (msgs []string, hung bool) {
 			n := runtime.Stack(buf, true)
 			return []string{fmt.Sprintf("Layout did not return within %.0fs (hang); goroutines:\n%s", limit, firstLines(string(buf[:n]), 40))}, true
 		}
+	}
+}
+
+// confirmHang runs Layout on the case once more, alone in a child process with three times the budget: a watchdog
+// that fires on a loaded machine must not be reported as a call that does not return. true = the child returned.
+func confirmHang(c Case) bool {
+	self, err := os.Executable()
+	if err != nil {
+		return false
+	}
+	f, err := os.CreateTemp("", "vh-hang-*.json")
+	if err != nil {
+		return false
+	}
+	f.Close()
+	defer os.Remove(f.Name())
+	writeJSON(f.Name(), []Case{c})
+	cmd := exec.Command(self, "one", "-file", f.Name())
+	done := make(chan error, 1)
+	go func() { done <- cmd.Run() }()
+	select {
+	case err := <-done:
+		return err == nil
+	case <-time.After(60 * time.Second):
+		cmd.Process.Kill()
+		<-done
+		return false
 	}
 }
 
